@@ -27,9 +27,6 @@ long long argll(const char *s);
 typedef void (*cmd_fn)(void);
 typedef struct { const char *name; cmd_fn fn; } cmd_t;
 
-extern const cmd_t cmds_b64[];
-extern const cmd_t cmds_io[];
-extern const cmd_t cmds_tables[];
-extern const cmd_t cmds_jwk[];
-extern const cmd_t cmds_jose[];
-extern const cmd_t cmds_misc[];
+/* each h_*.c registers its table from a constructor: REGISTER(cmds_xxx) */
+void h_register(const cmd_t *table);
+#define REGISTER(t) static void __attribute__((constructor)) reg_##t(void) { h_register(t); }
